@@ -130,7 +130,6 @@ theorem candidates_entry {st : State} {ps : List Rev} {f : FileId} {x : Rev}
 
 structure WF (st : State) : Prop where
   nodup : (ids st).Nodup
-  parents : ∀ r ∈ st, ∀ p ∈ r.parents, p ∈ ids st
   revs : ∀ r ∈ st, ∀ f e, r.inv.lookup f = some e → e.rev ∈ ids st
   sound : ∀ r ∈ st, ∀ f e, r.inv.lookup f = some e → entryIn st f e.rev = some e
   anc : ∀ r ∈ st, ∀ f e, r.inv.lookup f = some e → e.rev = r.id ∨ e.rev ∈ ranc st r.id
@@ -172,16 +171,23 @@ theorem ranc_cons_self (r : Rec) (st : State) :
     ranc (r :: st) r.id = r.parents ++ r.parents.flatMap (fun p => ranc st p) := by
   simp [ranc]
 
-/-- candidates and heads of the older repository are not changed by a newer revision -/
+theorem id_mem_mentioned {st : State} {x : Rev} (h : x ∈ ids st) : x ∈ mentioned st :=
+  List.mem_append_left _ h
+
+theorem parent_mem_mentioned {st : State} {r : Rec} (hr : r ∈ st) {p : Rev} (hp : p ∈ r.parents) :
+    p ∈ mentioned st :=
+  List.mem_append_right _ (List.mem_flatMap.mpr ⟨r, hr, hp⟩)
+
+/-- candidates and heads of the older repository are not changed by a newer
+revision whose id is none of the parents looked at (present or ghost) -/
 theorem heads_stable {st : State} (w : WF st) (r : Rec) (hr : r.id ∉ ids st) (ps : List Rev)
-    (hps : ∀ p ∈ ps, p ∈ ids st) (f : FileId) :
+    (hps : ∀ p ∈ ps, p ≠ r.id) (f : FileId) :
     heads (textsOf (r :: st)) f (candidates (r :: st) ps f)
       = heads (textsOf st) f (candidates st ps f) := by
   have hc : candidates (r :: st) ps f = candidates st ps f :=
     candidates_append [r] st ps f fun p hp => by
-      have := hps p hp
       simp only [ids, List.map_cons, List.map_nil, List.mem_singleton]
-      intro e; exact hr (e ▸ this)
+      exact hps p hp
   rw [hc]
   apply heads_congr
   intro x hx
@@ -201,7 +207,8 @@ theorem mkRec_entry {st : State} {c : Commit} {f : FileId} {e : Entry}
 
 theorem WF.step {st : State} (w : WF st) {c : Commit} (ok : okCommit st c) :
     WF (record st c) := by
-  obtain ⟨hid, hpar, hnd⟩ := ok
+  obtain ⟨hment, _, hnd⟩ := ok
+  have hid : c.id ∉ ids st := fun h => hment (id_mem_mentioned h)
   have hne : ∀ x ∈ ids st, x ≠ c.id := fun x hx e => hid (e ▸ hx)
   -- what a carried-over entry satisfies in the old repository
   have carried : ∀ f x pe, entryWithRev st c.parents f x = some pe →
@@ -218,14 +225,10 @@ theorem WF.step {st : State} (w : WF st) {c : Commit} (ok : okCommit st c) :
   have sub : ∀ k, k ∈ textsOf st → k ∈ textsOf (mkRec st c :: st) := fun k hk => by
     rw [textsOf_cons]; exact List.mem_append_right _ hk
   show WF (mkRec st c :: st)
-  refine ⟨?_, ?_, ?_, ?_, ?_, ?_⟩
+  refine ⟨?_, ?_, ?_, ?_, ?_⟩
   · show (ids (mkRec st c :: st)).Nodup
     simp only [ids, List.map_cons, List.nodup_cons]
     exact ⟨hid, w.nodup⟩
-  · intro r hr p hp
-    rcases List.mem_cons.mp hr with h | h
-    · subst h; exact List.mem_cons_of_mem _ (hpar p hp)
-    · exact List.mem_cons_of_mem _ (w.parents r h p hp)
   · intro r hr f e hl
     rcases List.mem_cons.mp hr with h | h
     · subst h
@@ -285,7 +288,7 @@ theorem WF.step {st : State} (w : WF st) {c : Commit} (ok : okCommit st c) :
       exact ⟨ps, sub _ hps⟩
 
 theorem WF.nil : WF [] :=
-  ⟨by simp [ids], by simp, by simp, by simp, by simp, by simp⟩
+  ⟨by simp [ids], by simp, by simp, by simp, by simp⟩
 
 theorem build_WF : ∀ (h : List Commit), hist h → WF (build h)
   | [], _ => WF.nil
